@@ -114,6 +114,21 @@ def run_reference(sc):
     return probe.scan(pot, scan=scan, detectors=dets, lazy=False)
 
 
+def window_tie(sc) -> bool:
+    """interpolation > 1: the cropped window of a probe starts at rint(position / sampling - window // 2).  A position that sits
+    exactly half-way between two pixels is a rounding tie: the full scan and a block of it compute that position with different
+    last bits and may pick neighbouring, equally valid windows, so lazy and eager outputs live on windows shifted by one pixel.
+    The property does not pin the window ("the equivalent cropped-window probes"); such scenes are not compared."""
+    if sc["interpolation"] == 1:
+        return False
+    import numpy as np
+
+    pos = np.asarray(scene.make_scan(sc["scan"]).get_positions(), dtype=float).reshape(-1, 2)
+    samp = np.array([sc["extent"][0] / sc["potential"]["gpts"][0], sc["extent"][1] / sc["potential"]["gpts"][1]])
+    frac = np.mod(pos / samp, 1.0)
+    return bool((np.abs(frac - 0.5) < 1e-6).any())
+
+
 def sig(sc, aspect, mode, extra=None):
     s = {"aspect": aspect, "mode": mode, "pot": sc["potential"]["kind"], "aberrations": bool(sc["aberrations"]),
          "ensemble_mean": sc["potential"].get("fp", {}).get("ensemble_mean"),
@@ -180,9 +195,11 @@ def run_one(run):
         sc["sim"] = sim.describe()
         if ref is not None:
             compare(lz, ref, "prism-equals-multislice", "lazy", (rtol, atol))
-        if eager is not None:
+        if eager is not None and not window_tie(sc):
             same_tol = oracle.tol_for(knobs["precision"])
             compare(lz, eager, "lazy-equals-eager", "lazy", (max(same_tol[0], 1e-6), same_tol[1]))
+        elif eager is not None:
+            run.note("window_rounding_tie_not_compared")
     except (HarnessError, InjectedCrash):
         raise
     except Exception as e:  # noqa: BLE001
